@@ -48,7 +48,11 @@ struct Recipe {
 	size_t ncyc = 28;
 	bool xdata = false;
 	// memory class
-	size_t memAw = 3, memW = 6; int memVariant = 0; std::string memRst;
+	// memory class: 1-2 memories (read latency 1), each read port followed by logic and 1-2 registers marked allowRetimingBackward
+	// with reset value x enable in all combinations; the memory detector retimes them backward into the read port
+	struct MemReg { int logic = 0; uint64_t k = 0; std::string rst; int en = -1; /* index into enPins or -1 */ };
+	struct MemDesc { bool fullWrite = true; std::vector<MemReg> regs; };
+	size_t memAw = 3, memW = 6; std::vector<MemDesc> mems;
 };
 
 std::string bitsOf(uint64_t v, size_t w) { std::string s; for (size_t i = std::max<size_t>(w, 1); i-- > 0;) s.push_back(((v >> i) & 1) ? '1' : '0'); return s; }
@@ -322,10 +326,24 @@ void analyseRecipe(Recipe &r) {
 }
 
 Recipe genMemory(Rng &rng) {
-	Recipe r; r.cls = "memory"; r.reset = rng.chance(1, 2) ? "sync" : "none"; r.rmix = "none"; r.ncyc = 20 + rng.below(16);
-	r.memAw = 2 + rng.below(2); r.memW = 2 + rng.below(6); r.memVariant = (int) rng.below(8);
-	r.memRst = bitsOf(rng.chance(1, 3) ? 0 : rng.next() & maskOf(r.memW), r.memW);
-	r.ins = {InPin{.w = r.memAw}, InPin{.w = r.memW}, InPin{.w = r.memAw}, InPin{.w = 0}}; // raddr, data, waddr, we
+	Recipe r; r.cls = "memory"; r.reset = rng.chance(2, 3) ? "sync" : "none"; r.rmix = "none"; r.ncyc = 20 + rng.below(16);
+	r.memAw = 2 + rng.below(2); r.memW = 2 + rng.below(6);
+	size_t nMem = 1 + rng.below(2), nStall = rng.below(3);
+	// inputs: raddr per memory, data, waddr, we, stall pins
+	for (size_t m = 0; m < nMem; m++) r.ins.push_back(InPin{.w = r.memAw});
+	r.ins.push_back(InPin{.w = r.memW}); r.ins.push_back(InPin{.w = r.memAw}); r.ins.push_back(InPin{.w = 0});
+	for (size_t i = 0; i < nStall; i++) { r.ins.push_back(InPin{.w = 0, .stall = true}); r.enPins.push_back((int) r.ins.size() - 1); }
+	for (size_t m = 0; m < nMem; m++) {
+		Recipe::MemDesc d; d.fullWrite = rng.chance(2, 3);
+		size_t nRegs = 1 + (rng.chance(1, 3) ? 1 : 0);
+		int en = nStall ? (int) rng.below(nStall + 1) - 1 : -1; // registers behind one read port share the enable (different ones are a design error)
+		for (size_t i = 0; i < nRegs; i++) {
+			Recipe::MemReg g; g.logic = (int) rng.below(5); g.k = rng.next() & maskOf(r.memW); g.en = en;
+			if (rng.chance(2, 3)) g.rst = bitsOf(rng.chance(1, 4) ? 0 : rng.next() & maskOf(r.memW), r.memW);
+			d.regs.push_back(g);
+		}
+		r.mems.push_back(d);
+	}
 	return r;
 }
 
@@ -336,7 +354,10 @@ std::string toString(const Recipe &r, uint64_t k, uint64_t sub) {
 	o << '\n';
 	for (size_t i = 0; i < r.ins.size(); i++) o << "in " << i << " w=" << r.ins[i].w << " stall=" << r.ins[i].stall << '\n';
 	for (size_t g = 0; g < r.groups.size(); g++) { o << "grp " << g; for (auto &m : r.groups[g].mem) o << ' ' << m.pin << ':' << (m.rst.empty() ? "-" : m.rst); o << '\n'; }
-	if (r.cls == "memory") o << "mem aw=" << r.memAw << " w=" << r.memW << " variant=" << r.memVariant << " rst=" << r.memRst << "\nout 0 step=0 w=" << r.memW << " dep=0 ffd=0 ureg=0\n";
+	if (r.cls == "memory") { size_t j = 0;
+		for (size_t m = 0; m < r.mems.size(); m++) { o << "mem " << m << " aw=" << r.memAw << " w=" << r.memW << " fullwrite=" << r.mems[m].fullWrite << '\n';
+			for (auto &g : r.mems[m].regs) { o << "memreg mem=" << m << " out=" << j << " logic=" << g.logic << " k=" << g.k << " rst=" << (g.rst.empty() ? "-" : g.rst) << " en=" << (g.en < 0 ? -1 : r.enPins[g.en]) << '\n';
+				o << "out " << j++ << " step=0 w=" << r.memW << " dep=0 ffd=0 ureg=0\n"; } } }
 	for (size_t i = 0; i < r.steps.size(); i++) { const Step &s = r.steps[i];
 		o << "step " << i << ' ' << s.kind << " w=" << s.w << " a=" << s.a << " b=" << s.b << " c=" << s.c << " k=" << s.k << " rst=" << (s.rst.empty() ? "-" : s.rst)
 		  << " g=" << s.g << " m=" << s.m << " fl=" << s.fl << " dep=" << s.dep << " h=" << s.h << " live=" << s.live << '\n'; }
@@ -362,21 +383,31 @@ template<class T> T regOpt(const T &v, const std::string &rst, const RegisterSet
 }
 
 void buildMemory(const Recipe &r, Variant var, BuiltDesign &res) {
-	UInt raddr = pinIn(BitWidth(r.memAw)).setName("raddr"); UInt data = pinIn(BitWidth(r.memW)).setName("data");
-	UInt waddr = pinIn(BitWidth(r.memAw)).setName("waddr"); Bit we = pinIn().setName("we");
-	for (auto *n : {raddr.node(), data.node(), waddr.node()}) res.b.inPins.push_back(dynamic_cast<hlim::Node_Pin*>(n->getNonSignalDriver(0).node));
-	res.b.inPins.push_back(dynamic_cast<hlim::Node_Pin*>(we.node()->getNonSignalDriver(0).node));
-	res.b.inWidths = {r.memAw, r.memW, r.memAw, 0};
-	Memory<UInt> mem(size_t(1) << r.memAw, BitWidth(r.memW));
-	mem.setPowerOnStateZero();
-	mem.setType(MemType::MEDIUM, 1);
-	UInt rd = mem[raddr];
-	if (r.memVariant & 1) { IF (we) mem[waddr] = data; } else { IF (we & (waddr == 0)) mem[waddr] = data; }
-	UInt out = (r.memVariant & 2) ? UInt(rd ^ data) : UInt(rd);
-	if (r.memVariant & 4) out = ~out;
-	UInt rv = vh::constU(r.memRst);
-	out = reg(out, rv, {.allowRetimingBackward = true});
-	auto p = pinOut(out).setName("out0"); res.b.outPins = {p.node()}; res.b.outWidths = {r.memW};
+	std::vector<Val> pins(r.ins.size());
+	for (size_t i = 0; i < r.ins.size(); i++) {
+		if (r.ins[i].w == 0) { Bit b = pinIn().setName("in" + std::to_string(i)); res.b.inPins.push_back(dynamic_cast<hlim::Node_Pin*>(b.node()->getNonSignalDriver(0).node)); pins[i] = b; }
+		else { UInt v = pinIn(BitWidth(r.ins[i].w)).setName("in" + std::to_string(i)); res.b.inPins.push_back(dynamic_cast<hlim::Node_Pin*>(v.node()->getNonSignalDriver(0).node)); pins[i] = v; }
+		res.b.inWidths.push_back(r.ins[i].w);
+	}
+	size_t nMem = r.mems.size();
+	UInt data = std::get<UInt>(pins[nMem]), waddr = std::get<UInt>(pins[nMem + 1]); Bit we = std::get<Bit>(pins[nMem + 2]);
+	size_t j = 0;
+	for (size_t m = 0; m < nMem; m++) {
+		Memory<UInt> mem(size_t(1) << r.memAw, BitWidth(r.memW));
+		mem.setPowerOnStateZero();
+		mem.setType(MemType::MEDIUM, 1);
+		UInt rd = mem[std::get<UInt>(pins[m])];
+		if (r.mems[m].fullWrite) { IF (we) mem[waddr] = data; } else { IF (we & (waddr == m)) mem[waddr] = data; }
+		for (auto &g : r.mems[m].regs) {
+			UInt c = vh::constU(bitsOf(g.k, r.memW));
+			UInt v = g.logic == 0 ? UInt(rd) : g.logic == 1 ? UInt(rd ^ c) : g.logic == 2 ? UInt(rd ^ data) : g.logic == 3 ? UInt(~rd) : UInt(rd + c);
+			{
+				std::optional<EnableScope> es; if (g.en >= 0) es.emplace(std::get<Bit>(pins[r.enPins[g.en]]));
+				v = regOpt(v, g.rst, {.allowRetimingBackward = true});
+			}
+			auto p = pinOut(v).setName("out" + std::to_string(j++)); res.b.outPins.push_back(p.node()); res.b.outWidths.push_back(r.memW);
+		}
+	}
 }
 
 // N: stages per group (TWIN / LAGTWIN)
@@ -524,12 +555,17 @@ vh::Stimulus genStim(Rng &rng, const Recipe &r) {
 	vh::Stimulus st;
 	unsigned stallMode = (unsigned) rng.below(4); // 0: never stalled, 1: rare, 2: frequent, 3: bursts
 	bool burst = false;
+	// enables that stay low for the first k cycles (during and directly after reset) and toggle later
+	std::vector<size_t> lowFirst(r.ins.size(), 0);
+	for (size_t i = 0; i < r.ins.size(); i++) if (r.ins[i].stall && rng.chance(r.cls == "memory" ? 2 : 1, 3)) lowFirst[i] = 1 + rng.below(6);
+	if (r.cls == "memory" && stallMode == 0 && rng.chance(1, 2)) stallMode = 1 + (unsigned) rng.below(3);
 	for (size_t c = 0; c < r.ncyc; c++) {
 		std::vector<std::string> row; unsigned mode = (unsigned) rng.below(8);
 		if (stallMode == 3 && rng.chance(1, 4)) burst = !burst;
-		for (auto &p : r.ins) {
+		for (size_t pi = 0; pi < r.ins.size(); pi++) { auto &p = r.ins[pi];
 			std::string s;
-			if (p.stall) { bool hi = stallMode == 0 ? true : stallMode == 1 ? !rng.chance(1, 8) : stallMode == 2 ? rng.chance(1, 2) : !burst; s = hi ? "1" : "0"; }
+			if (p.stall && c < lowFirst[pi]) s = "0";
+			else if (p.stall) { bool hi = stallMode == 0 ? true : stallMode == 1 ? !rng.chance(1, 8) : stallMode == 2 ? rng.chance(1, 2) : !burst; s = hi ? "1" : "0"; }
 			else for (size_t i = 0; i < std::max<size_t>(1, p.w); i++) { char ch = mode == 0 ? '0' : mode == 1 ? '1' : (rng.chance(1, 2) ? '1' : '0'); if (r.xdata && rng.chance(1, 12)) ch = 'x'; s.push_back(ch); }
 			row.push_back(s);
 		}
